@@ -120,8 +120,22 @@ func checkProp[C any](t *testing.T, id, name string, n int, draw func(*rapid.T) 
 	setRapid(n, name)
 	rapid.Check(t, func(rt *rapid.T) {
 		c := draw(rt)
+		journal(id, name, c)
 		judge(rt, id, name, c, safely(run, c, rec))
 	})
+}
+
+// journal records the case that is about to run, so that the driver can still produce a
+// replay file when the process dies (race detector abort, fatal runtime error).
+func journal(id, name string, c interface{}) {
+	path := os.Getenv("VERIF_JOURNAL")
+	if path == "" {
+		return
+	}
+	b, err := json.Marshal(map[string]interface{}{"property": id, "check": name, "case": c, "journal": true, "variant": os.Getenv("VERIF_VARIANT")})
+	if err == nil {
+		_ = os.WriteFile(path, b, 0o644)
+	}
 }
 
 // setRapid configures the next rapid.Check call: number of cases and PRNG value.
@@ -135,6 +149,7 @@ func setRapid(n int, name string) {
 // pinned runs one fixed case through the same oracle (regression tier, bypasses rapid).
 func pinned[C any](t *testing.T, id, name string, c C, run func(C, *stat.Rec) *stat.Failure) {
 	t.Helper()
+	journal(id, name, c)
 	judge(t, id, name, c, safely(run, c, stat.For(id)))
 }
 
